@@ -267,6 +267,13 @@ func c12Gen(rt *rapid.T) c12Case {
 			c.tp.Dims[rapid.IntRange(0, len(c.tp.Dims)-1).Draw(rt, "negAt")] *= -1
 			c.kind, c.valid = "negative-dim", false
 		}
+	case 8: // an even number of negative dims: the product is positive and may equal the count
+		if len(c.tp.Dims) >= 2 {
+			i := rapid.IntRange(0, len(c.tp.Dims)-2).Draw(rt, "negPairAt")
+			c.tp.Dims[i] *= -1
+			c.tp.Dims[i+1] *= -1
+			c.kind, c.valid = "negative-dim", false
+		}
 	case 4: // dims whose product overflows / is huge
 		c.tp.Dims = append([]int64{1 << 62, 4}, c.tp.Dims...)
 		c.kind, c.valid = "overflowing-dims", false
